@@ -138,6 +138,10 @@ Pow(x, k) == IF k = 0 THEN One
              ELSE Mul(x, Pow(x, k - 1))
 Pow10(k) == Pow(OfInt(10), k)
 
+RECURSIVE GcdAbs(_, _)
+GcdAbs(x, y) == IF y.s = 0 THEN x ELSE GcdAbs(y, RemT(x, y))
+Gcd(x, y) == GcdAbs(Abs(x), Abs(y))          \* Gcd(0,0) = 0
+
 Min(x, y) == IF Le(x, y) THEN x ELSE y
 Max(x, y) == IF Ge(x, y) THEN x ELSE y
 
